@@ -224,6 +224,64 @@ func TestVerifC19Wiring(t *testing.T) {
 		cancel()
 		time.Sleep(20 * time.Millisecond)
 	}
+	// mux and TCP listeners whose TLS block is enabled with verification on but WITHOUT an own certificate (enabled through
+	// caServerName + remoteCAPath): either the configuration is refused, or the listener admits nobody - in particular not
+	// a peer that does not speak TLS at all
+	noCert := encryption.TLSConfig{CAServerName: sn, RemoteCAPath: ca1.Path}
+	for _, kind := range []string{"mux-server", "tcp"} {
+		cfg := config.ClusterConnConfig{Name: "c19n", Local: plainLocal}
+		if kind == "mux-server" {
+			cfg.Remote = config.ClusterDefinition{ConnectionType: config.ConnTypeMuxServer, MuxCount: 1,
+				MuxAddressInfo: config.TCPTLSInfo{ConnectionString: "127.0.0.1:0", TLSConfig: noCert}}
+		} else {
+			cfg.Remote = config.ClusterDefinition{ConnectionType: config.ConnTypeTCP,
+				TcpClient: config.TCPTLSInfo{ConnectionString: "127.0.0.1:1"}, TcpServer: config.TCPTLSInfo{ConnectionString: "127.0.0.1:0", TLSConfig: noCert}}
+		}
+		ctx, cancel := context.WithCancel(context.Background())
+		cc, err := NewClusterConnection(ctx, cfg, vfNoopLoggers())
+		evals++
+		if err != nil {
+			cancel()
+			continue // refused at configuration time
+		}
+		cc.Start()
+		var addr string
+		if kind == "mux-server" {
+			addr = cc.inboundServer.(mux.MultiMuxManager).Address()
+		} else {
+			addr = cc.inboundServer.(*simpleGRPCServer).listener.Addr().String()
+		}
+		for _, peer := range []string{"plaintext", "tls-valid-chain", "tls-no-certificate"} {
+			var perr error
+			switch {
+			case peer == "plaintext" && kind == "mux-server":
+				perr = vfMuxPlainPing(addr)
+			case peer == "plaintext":
+				perr = vfPlainHTTP2(addr)
+			default:
+				pool := x509.NewCertPool()
+				pool.AddCert(ca1.Cert)
+				pc := &tls.Config{RootCAs: pool, ServerName: sn, NextProtos: []string{"h2"}}
+				if peer == "tls-valid-chain" {
+					leaf := valid.TLSCert
+					pc.GetClientCertificate = func(*tls.CertificateRequestInfo) (*tls.Certificate, error) { return &leaf, nil }
+				}
+				if kind == "mux-server" {
+					pc.NextProtos = nil
+					perr = vfMuxPeerPing(addr, pc)
+				} else {
+					perr = vfTLSDial(addr, pc)
+				}
+			}
+			evals++
+			nontrivial++
+			if perr == nil && peer != "tls-valid-chain" {
+				res.Violate("tls-wiring/listener-without-own-certificate-admits/"+kind+"/"+peer, fmt.Sprintf("%s listener whose TLS block has verification on (caServerName + remoteCAPath) but no own certificate: a %s peer was served", kind, peer), map[string]any{"kind": kind, "peer": peer})
+			}
+		}
+		cancel()
+		time.Sleep(20 * time.Millisecond)
+	}
 	// mux establisher (establisher.go): muxAddressInfo.tls with CA verification; the remote listener presents a
 	// valid / foreign / self-signed certificate; reached = the TLS handshake completes on the listener side and
 	// the proxy answers a yamux ping
@@ -312,6 +370,48 @@ func vfMuxPeerPing(addr string, cfg *tls.Config) error {
 	defer sess.Close()
 	_, err = sess.Ping()
 	return err
+}
+
+// vfMuxPlainPing: a peer that does not speak TLS: TCP, yamux client, one ping.
+func vfMuxPlainPing(addr string) error {
+	d := &net.Dialer{Timeout: 10 * time.Second}
+	raw, err := d.Dial("tcp", addr)
+	if err != nil {
+		return err
+	}
+	defer raw.Close()
+	_ = raw.SetDeadline(time.Now().Add(15 * time.Second))
+	ycfg := yamux.DefaultConfig()
+	ycfg.LogOutput = io.Discard
+	sess, err := yamux.Client(raw, ycfg)
+	if err != nil {
+		return err
+	}
+	defer sess.Close()
+	_, err = sess.Ping()
+	return err
+}
+
+// vfPlainHTTP2: a peer that does not speak TLS towards a gRPC listener: HTTP/2 preface, wait for the SETTINGS frame.
+func vfPlainHTTP2(addr string) error {
+	d := &net.Dialer{Timeout: 5 * time.Second}
+	raw, err := d.Dial("tcp", addr)
+	if err != nil {
+		return err
+	}
+	defer raw.Close()
+	_ = raw.SetDeadline(time.Now().Add(5 * time.Second))
+	if _, err := raw.Write([]byte("PRI * HTTP/2.0\r\n\r\nSM\r\n\r\n\x00\x00\x00\x04\x00\x00\x00\x00\x00")); err != nil {
+		return err
+	}
+	buf := make([]byte, 9)
+	if _, err := io.ReadFull(raw, buf); err != nil {
+		return err
+	}
+	if buf[3] != 0x04 {
+		return fmt.Errorf("not a SETTINGS frame: % x", buf)
+	}
+	return nil
 }
 
 func contains(s, sub string) bool {
